@@ -93,10 +93,23 @@ def _drive(chk, drv, argv, outp, what, count=True, seed=None):
     return s
 
 
+_scripts_path = [None]
+
+
+def _scripts(chk):
+    """Environment scripts of the call-site machine (fault prefixes), printed by TLC."""
+    if _scripts_path[0] is None:
+        path, n = _emit(chk, "Gen_scripts.cfg", "scripts")
+        if n < 20:
+            raise vlib.Inconclusive("only %d environment scripts" % n)
+        _scripts_path[0] = path
+    return _scripts_path[0]
+
+
 def _inpkg(chk, pkg, test_file, test_name, fin, fout, timeout=900):
     if os.path.exists(fout):
         os.remove(fout)
-    env = {"VERIF_C08_IN": fin, "VERIF_C08_OUT": fout, "VERIF_SEED": str(chk.seed)}
+    env = {"VERIF_C08_IN": fin, "VERIF_C08_OUT": fout, "VERIF_SEED": str(chk.seed), "VERIF_C08_SCRIPTS": _scripts(chk)}
     r = vlib.go_test_inpkg(pkg, [test_file], "^%s$" % test_name, env=env, linkflag=True, timeout=timeout)
     if r.timed_out or r.rc != 0 or not os.path.exists(fout):
         raise vlib.Inconclusive("%s did not complete (rc=%s timeout=%s):\n%s" % (test_name, r.rc, r.timed_out, r.out[-3000:]))
@@ -115,6 +128,16 @@ def run(chk, args):
     for cfg in (["MC_probe_quick.cfg", "MC_full.cfg"] if q else ["MC_probe_quick.cfg", "MC_full.cfg", "MC_probe_thorough.cfg"]):
         if not _mc(chk, cfg):
             return
+
+    # 1b. the call-site machine: every attempt's payload conforms, whatever the transport does;
+    #     the deliberately defective retry (RetryRaw) must be refuted, else the invariant is vacuous
+    if not _mc(chk, "MC_callsite.cfg"):
+        return
+    r = vlib.tlc(SPECDIR, "SdpStrip", "MC_callsite_raw.cfg", timeout=3000, keep_prints=False)
+    chk.add_tlc(r)
+    if r.error != "invariant:EveryAttemptConforms":
+        chk.fail("self-check: MC_callsite_raw.cfg should violate EveryAttemptConforms, TLC says %s" % r.error)
+        return
 
     # 2. cases
     table, ntab = _emit(chk, "Gen_table.cfg", "table")
@@ -163,7 +186,7 @@ def run(chk, args):
         if s["with_target_candidate"] == 0:
             # no usable network interface for pion: the clause cannot be exercised here (DESIGN 2.9)
             chk.cov.setdefault("skipped_clauses", []).append("sendAnswer binding: no PeerConnection produced the requested candidate (%s)" % s.get("skip_example", ""))
-        elif s["with_target_candidate"] < 40:
+        elif s["with_target_candidate"] < 1000:
             chk.fail("sendanswer: only %d of %d PeerConnections carried the requested candidate (%s)" % (s["with_target_candidate"], s["cases"], s.get("skip_example", "")))
 
     chk.cov["exhaustive"] = True
@@ -187,7 +210,7 @@ def _negotiate(chk, drv, cases_path):
         raise vlib.Inconclusive("sdpdrv build failed:\n%s" % r.out[-2000:])
     wall = _inpkg(chk, "client/lib", NEGOTIATE_TEST, "TestVerifC08Negotiate", conc, capt)
     s = _drive(chk, drv, ["judge", cases_path, capt, judged, chk.seed, tplf], judged, "negotiate", seed=chk.seed)
-    chk.note("client/lib: %d real Negotiate calls (%.0fs)" % (s["cases"], wall))
+    chk.note("client/lib: %d real Negotiate calls under fault scripts, %d payloads judged, %d calls sent more than once (%.0fs)" % (s["cases"], s.get("payloads", 0), s.get("calls_with_retry", 0), wall))
     return s
 
 
@@ -196,7 +219,8 @@ def _sendanswer(chk, drv, table, lst):
     capt, judged = os.path.join(d, "sendanswer.captured.ndjson"), os.path.join(d, "sendanswer.out")
     wall = _inpkg(chk, "proxy/lib", SENDANSWER_TEST, "TestVerifC08SendAnswer", lst, capt)
     s = _drive(chk, drv, ["judgepc", table, capt, judged], judged, "sendanswer")
-    chk.note("proxy/lib: %d real sendAnswer calls, %d judged, %d skipped (%.0fs)" % (s["cases"], s["with_target_candidate"], s["skipped"], wall))
+    chk.note("proxy/lib: %d real sendAnswer calls under fault scripts, %d judged (%d request bodies, %d calls sent more than once), %d skipped (%.0fs)" % (
+        s["cases"], s["with_target_candidate"], s.get("payloads", 0), s.get("calls_with_retry", 0), s["skipped"], wall))
     return s
 
 
@@ -212,6 +236,9 @@ def replay(chk, drv, path):
         # concrete spellings depend on (seed, index): the case is replayed at its original index by padding
         vlib.write_ndjson(fin, [case] * (idx + 1))
         _drive(chk, drv, ["desc", fin, fout, chk.seed], fout, "desc:replay", seed=chk.seed)
+    elif mode == "negotiate" and isinstance(case, dict) and "desc" in case:
+        vlib.write_ndjson(fin, [case["desc"]] * (idx + 1))
+        _negotiate(chk, drv, fin)
     elif mode == "negotiate" and case is not None:
         vlib.write_ndjson(fin, [case] * (idx + 1))
         _negotiate(chk, drv, fin)
